@@ -24,7 +24,11 @@ IdsOf(sc) == {sc[i].id : i \in 1..Len(sc)}
 IdOfName(sc, n) == (CHOOSE f \in SeqToSet(sc) : f.name = n).id
 RestrictTo(r, cs) == [c \in cs |-> r[c]]
 
-Ops == {"create", "append", "delete", "compact", "add_column", "drop_column", "rename_column", "scenarios"}
+Ops == {"create", "append", "delete", "compact", "add_column", "join_column", "drop_column", "rename_column", "scenarios"}
+JoinVal(src, k) == IF \E i \in 1..Len(src) : src[i][1] = k
+                   THEN src[CHOOSE i \in 1..Len(src) : src[i][1] = k][2] ELSE NULL
+\* the value the added column must hold in a row: from the SQL expression, or from the key join
+Wanted(st, row) == IF st.op = "join_column" THEN JoinVal(st.src, row.id) ELSE EvalExpr(st.setexpr, row)
 
 \* judgement: set of <<invariant, class>>
 Judge(e) ==
@@ -42,7 +46,7 @@ Judge(e) ==
   IN uniq \cup shape \cup
   (IF e.res # "ok" THEN (IF C = cells /\ S = schema THEN {} ELSE {<<"FailedHasNoEffect", op>>})
    ELSE
-   CASE op = "add_column" ->
+   CASE op \in {"add_column", "join_column"} ->
           LET n == st.name
               newFields == {f \in SeqToSet(S) : f.name = n}
           IN (IF Len(S) = Len(schema) + 1 /\ SubSeq(S, 1, Len(schema)) = schema /\ S[Len(S)].name = n THEN {} ELSE {<<"EvolutionPreservesOthers", "schema">>})
@@ -50,11 +54,11 @@ Judge(e) ==
              \*  data files, so only the observable promise -- the dropped values never show -- is judged)
              \cup (IF Len(C) = Len(cells) /\ (\A i \in 1..Len(cells) : RestrictTo(C[i], NamesOf(schema)) = cells[i])
                    THEN {} ELSE {<<"EvolutionPreservesOthers", "values-or-order">>})
-             \cup (IF Len(C) = Len(cells) /\ n \in NamesOf(S) /\ (\A i \in 1..Len(cells) : C[i][n] = EvalExpr(st.setexpr, cells[i]))
+             \cup (IF Len(C) = Len(cells) /\ n \in NamesOf(S) /\ (\A i \in 1..Len(cells) : C[i][n] = Wanted(st, cells[i]))
                    THEN {}
                    ELSE IF n \in DOMAIN dropped /\ Len(C) = Len(cells) /\ n \in NamesOf(S)
                            /\ (\E i \in 1..Len(cells) : cells[i].id \in DOMAIN dropped[n] /\ C[i][n] = dropped[n][cells[i].id]
-                                                       /\ C[i][n] # EvalExpr(st.setexpr, cells[i]))
+                                                       /\ C[i][n] # Wanted(st, cells[i]))
                         THEN {<<"DroppedDataNeverResurfaces", "readd">>}
                         ELSE {<<"AddedValuesExact", "add">>})
      [] op = "drop_column" ->
